@@ -4,7 +4,9 @@ Correspondence: `_parse_attribute_name` / `_title_format` vs the Lean model on e
 three contexts and on strings built from class representatives.  The hypotheses of the theorems
 about the interpreter's character classes (`Faithful`) are decided code point by code point.
 Oracle: `str.isidentifier`, `keyword.iskeyword`, the reserved list, NFKC stability, `compile()`
-of a class body using the name, injectivity over sibling sets, the recorded source."""
+of a class body using the name, injectivity over sibling sets, the recorded source; for every name an `Object`
+(class, metaclass, instance) answers to, in each JSON spelling that maps onto it: instances of a model with such a
+property keep every method and every generic protocol a property-less instance has (`check_facilities`)."""
 import keyword
 import random
 import unicodedata
@@ -303,6 +305,144 @@ def check_usable(name, out, stats):
     stats["usable-ok"] = stats.get("usable-ok", 0) + 1
 
 
+def instance_facilities():
+    """What an instance of a model *without* the property under test offers and binds to itself, read off the running
+    library (nothing is listed by hand): attribute name -> the function behind the bound method.  Special names
+    (`__x__`) are included; Python reaches those through the type, so they are compared on the type."""
+    import inspect
+    from statham.schema.elements import Object
+    bare = Object.inline("Bare")
+    inst = bare({})
+    found = {}
+    for m in dir(inst):
+        try:
+            v = getattr(inst, m)
+        except Exception:  # noqa: BLE001
+            continue
+        if inspect.ismethod(v) and v.__self__ is inst:
+            found[m] = v.__func__
+    return bare, found
+
+
+# generic Python protocols an instance may or may not support; which ones are *required* of a model with the probed
+# property is decided differentially: exactly those that work on an instance of a model without it
+PROTOCOLS = [
+    ("repr(x)", repr),
+    ("x == x", lambda x: x == x),
+    ("dict(x)", dict),
+    ("f(**x)", lambda x: (lambda **kw: kw)(**x)),
+    ("list(x)", list),
+    ("len(x)", len),
+    ("bool(x)", bool),
+    ("str(x)", str),
+]
+
+
+def works(fn, x):
+    try:
+        fn(x)
+        return True, None
+    except Exception as exc:  # noqa: BLE001
+        return False, f"{type(exc).__name__}: {exc}"
+
+
+def facility_variants(rng, member):
+    """JSON spellings which the name mapping sends (or may send) onto the attribute `member`"""
+    out = [member]
+    if "_" in member.strip("_"):
+        core_ = member.strip("_")
+        lead = member[:len(member) - len(member.lstrip("_"))]
+        trail = member[len(member.rstrip("_")):] if member.rstrip("_") != member else ""
+        out.append(lead + "".join(rng.choice(" -") if c == "_" else c for c in core_) + trail)
+    out.append(rng.choice([" ", "-", "_"]) + member)
+    out.append(member + rng.choice(["_", " ", "-"]))
+    return out
+
+
+def check_facilities(name, out, stats):
+    """'usable', 'not a reserved attribute': a model with a JSON property of this name (declared under `properties`, or
+    only listed under `required`, or declared on a class under the mapped attribute name) still gives instances
+    everything an `Object` instance provides: every method which a property-less instance binds to itself is still that
+    method on the instance (special methods: on its type), and every generic protocol that works on a property-less
+    instance works on it - with the property provided and with it left out."""
+    import inspect
+    from statham.schema.elements import Integer, Object
+    from statham.schema.exceptions import SchemaDefinitionError, ValidationError
+    from statham.schema.property import Property
+    if core.has_surrogate(name):
+        return
+    case = {"facilities": name}
+    out.note_case(case, True)
+    try:
+        bare, facilities = instance_facilities()
+        baseline = bare({})
+    except Exception as exc:  # noqa: BLE001
+        out.failures.append({"case": case, "what": f"a property-less model cannot be built: {type(exc).__name__}: {exc}", "finding": None})
+        return
+    required_ops = [(label, fn) for label, fn in PROTOCOLS if works(fn, baseline)[0]]
+    stats["facilities-ordinary-methods-of-an-instance"] = len([m for m in facilities if not (m.startswith("__") and m.endswith("__"))])
+    stats["facilities-special-methods-of-an-instance"] = len(facilities) - stats["facilities-ordinary-methods-of-an-instance"]
+    stats["facilities-protocols-required(" + ", ".join(label for label, _ in required_ops) + ")"] = len(required_ops)
+    models = []
+    try:
+        attr = _parse_attribute_name(name)
+        models.append(("declared under `properties`", parse_element({"type": "object", "title": "Probe", "properties": {name: {"type": "integer"}}})))
+        models.append(("listed under `required` only", parse_element({"type": "object", "title": "Probe", "required": [name]})))
+    except Exception as exc:  # noqa: BLE001
+        out.failures.append({"case": case, "what": f"declaring a property named {name!r} raised {type(exc).__name__}: {exc}", "finding": None})
+        return
+    # the hand-written path: the mapped attribute, and the JSON name itself where it is an identifier, declared on a class
+    for ident in dict.fromkeys([attr, name]):
+        if not ident.isidentifier():
+            continue
+        try:
+            models.append((f"declared on a class as `{ident} = Property(...)`", Object.inline("Probe", properties={ident: Property(Integer(), source=name)})))
+            stats["facilities-class-declaration-accepted"] = stats.get("facilities-class-declaration-accepted", 0) + 1
+        except SchemaDefinitionError:
+            # the documented refusal of a reserved attribute: nothing to build
+            stats["facilities-class-declaration-refused"] = stats.get("facilities-class-declaration-refused", 0) + 1
+        except Exception as exc:  # noqa: BLE001
+            out.failures.append({"case": case, "what": f"declaring `{ident} = Property(...)` raised {type(exc).__name__}: {exc}", "finding": None})
+            return
+    if attr in facilities:
+        stats["facilities-names-mapped-onto-an-instance-method"] = stats.get("facilities-names-mapped-onto-an-instance-method", 0) + 1
+    for how, cls in models:
+        for given, data in (("provided", {name: 1}), ("left out", {})):
+            if given == "left out" and "required" in how:
+                continue
+            try:
+                inst = cls(data)
+            except Exception as exc:  # noqa: BLE001
+                # listed region C12-empty-name, only where it applies: the empty JSON name loses its recorded source (it
+                # becomes 'blank'), so data carrying "" is refused as lacking the required 'blank'
+                lost_source = name == "" and "required" in how and isinstance(exc, ValidationError) and cls.properties[attr].source == attr
+                out.failures.append({"case": case, "what": f"property {name!r} ({how}, {given}): building the model raised {type(exc).__name__}: {exc}",
+                                     "finding": "C12-empty-name" if lost_source else None})
+                return
+            for m, func in facilities.items():
+                if m.startswith("__") and m.endswith("__"):
+                    got = inspect.getattr_static(type(inst), m, None)
+                    ok = got is func
+                else:
+                    try:
+                        got = getattr(inst, m)
+                    except Exception as exc:  # noqa: BLE001
+                        got = exc
+                    ok = inspect.ismethod(got) and got.__self__ is inst and got.__func__ is func
+                if not ok:
+                    broken = [f"{label} raises {why}" for label, fn in required_ops for good, why in [works(fn, inst)] if not good]
+                    out.failures.append({"case": case, "what": f"property {name!r} -> attribute {attr!r} ({how}, {given}): `instance.{m}` is no longer the method "
+                                         f"every Object instance has but {got!r}" + ("; " + "; ".join(broken) if broken else ""), "finding": None})
+                    return
+            for label, fn in required_ops:
+                good, why = works(fn, inst)
+                if not good:
+                    out.failures.append({"case": case, "what": f"property {name!r} -> attribute {attr!r} ({how}, {given}): {label} works on a model without the "
+                                         f"property but here raises {why}", "finding": None})
+                    return
+    stats["facilities-ok"] = stats.get("facilities-ok", 0) + 1
+
+
 def check_shared_object(names, out, stats):
     """one object schema *dict* reached twice in one parse (from a property and from `definitions`, as resolving a
     `$ref` produces): its properties keep their JSON names, and it is one class"""
@@ -349,7 +489,8 @@ def run(ctx, scale=1.0):
     out = Outcome()
     out.rule = ("single characters in three contexts (alone, between letters, after `_`): every code point below U+3000 plus a random "
                 "sample (quick) or every Unicode scalar value (thorough); strings of 2-6 class representatives; keyword / reserved / "
-                "dunder words; sibling sets of 2-4 names; titles; non-trivial = longer than one character; distinct by SHA-256")
+                "dunder words; sibling sets of 2-4 names; titles; every attribute name of Object / its metaclass / an instance in the JSON "
+                "spellings mapping onto it (instances keep all instance facilities); non-trivial = longer than one character; distinct by SHA-256")
     stats = {}
     drv = core.Driver()
     try:
@@ -383,6 +524,18 @@ def run(ctx, scale=1.0):
         # every name an Object already has as an attribute, and a sample of ordinary ones, must be usable as a property
         for n in object_attribute_names() + sorted(OWN_RESERVED) + [w + "_" for w in keyword.kwlist] + rng.sample(WORDS, min(len(WORDS), 20)):
             check_usable(n, out, stats)
+        # every name an Object (class, metaclass, or instance) answers to, in the JSON spellings that map onto it, plus ordinary
+        # names: instances of a model with that property keep every facility of an Object instance
+        _, facilities = instance_facilities()
+        members = sorted(set(object_attribute_names()) | set(facilities) | OWN_RESERVED)
+        probe = []
+        for m in members:
+            probe.extend(facility_variants(rng, m))
+        probe.extend(rng.sample(WORDS, min(len(WORDS), 15)))
+        for _ in range(int(60 * scale)):
+            probe.append("".join(rng.choice(REPRESENTATIVES) for _ in range(rng.randint(1, 5))))
+        for n in dict.fromkeys(probe):
+            check_facilities(n, out, stats)
         from harness.gen import SchemaGen
         sg = SchemaGen(rng)
         for _ in range(int(400 * scale)):
@@ -431,6 +584,8 @@ def replay_finding(finding):
         check_title(w["title"], out, stats)
     elif "usable" in w:
         check_usable(w["usable"], out, stats)
+    elif "facilities" in w:
+        check_facilities(w["facilities"], out, stats)
     elif "autotitle_keys" in w:
         drv = core.Driver()
         try:
